@@ -27,32 +27,41 @@ TECHNIQUE = ("runtime monitoring: differential oracle (hand-written reference in
              "grammar-generated programs, at the parser output, the command objects and the CLI-produced file; "
              "sys.monitoring rule coverage")
 RULE = (
-    "programs generated from the grammar: 1..6 options/constants/sources/keyblob blocks in any order (several "
-    "definitions per line, constants referring to earlier constants, extern(), string sources), 1..4 sections with "
-    "0..8 statements over every supported statement form (load pattern/blob/file/source to address or range with "
-    "and without memory option, fuse/ifr program, erase range/all/unsecure all, enable, jump, jump_sp, call, reset, "
-    "version_check, keystore_to_nv/from_nv, encrypt, keywrap), expression trees of depth <= 5 over + - * / % << >> & | ^ "
-    "unary +/- printed with minimal parentheses, || && == != < <= > >= ! defined() over them, .b/.h/.w, decimal/hex/K/"
-    "character/true/false/yes/no literals, comments in all three styles; plus each unsupported construct embedded in a "
-    "valid program, directed witnesses, and a CLI sample.  Signature = (blocks present, statement kinds, stage reached); "
-    "non-trivial = SPSDK accepted the program and the comparison was made (or an unsupported construct was tried)."
+    "programs generated from the grammar: 0..6 options/constants/sources/keyblob blocks in any order (several "
+    "definitions per line, constants referring to earlier constants, extern(), string sources, key blobs with ids in "
+    "any order), 1..4 sections with 0..8 statements over every supported statement form (load pattern/blob/file/source "
+    "to address or range with and without memory option, fuse/ifr program from integer and 4/8-byte blob, erase "
+    "range/address/all/unsecure all, enable, jump with and without argument, jump_sp, call, reset, version_check "
+    "sec/nsec, keystore_to_nv/from_nv, encrypt, keywrap), expression trees of depth <= 5 over + - * / % << >> & | ^ "
+    "unary +/- printed with minimal parentheses (unary operands bare in half of the programs), || && == != < <= > >= ! "
+    "defined() over them, .b/.h/.w, decimal/hex/K/character/true/false/yes/no literals, comments in all three styles; "
+    "'expr' cases: 10 constants per program, one expression each (precise witnesses); each unsupported construct spliced "
+    "into a valid program (must raise); directed witnesses of every known mechanism; a CLI sample whose output file is "
+    "decrypted and decoded by the reference.  Signature = (blocks present, statement kinds, stage reached); non-trivial "
+    "= SPSDK accepted the program and the comparison was made (or an unsupported construct was tried)."
 )
 ASSUMPTIONS = [
     "language semantics = docs/usage/elf2sb.md + the elftosb-made goldens in tests/nxpimage/data/sb_sources "
-    "(vf/refs/bd_ref.py, self-tested against 5 goldens / 68 commands)",
-    "/, %, >> and << only get non-negative operands, shift counts 0..31, non-zero divisors; statement operands lie in 0..2^32-1",
+    "(vf/refs/bd_ref.py, self-tested against 5 goldens / 68 commands, decoded by its own decoder and by vf/refs/sb2_rom.py)",
+    "/, %, >> and << only get non-negative operands, shift counts 0..31, non-zero divisors; statement operands lie in "
+    "0..2^32-1 (a correct evaluation never sees anything else; an implementation that regroups operands may)",
     "an integer-size suffix is only generated on a literal/constant that is a complete (possibly parenthesised) "
     "expression: the document gives '.' no precedence",
     "operands that directly follow a keyword with an optional memory name do not start with an identifier, and an "
-    "operand after '@<expr>' does not start with '(' '+' '-' (the grammar is ambiguous there)",
+    "operand after '@<expr>' or after jump_sp's first expression does not start with '(' '+' '-' (the grammar is "
+    "ambiguous there); option names are not used inside expressions; no identifier is defined twice",
     "not judged (left open by the documents): fill pattern width where 'declared size' and 'magnitude' differ, count of a "
-    "fill without range for .b/.h values, count of 'erase <address>', count/data words of key-store commands, 8-byte-group "
-    "swapping and counter base of encrypted loads, section ids at command level (SPSDK numbers sections by position), "
-    "option names used inside expressions",
-    "any exception raised by SPSDK counts as 'refused' (the CLI turns KeyError into an error message as well); the run is "
-    "inconclusive when fewer than 60 % of the generated programs are accepted",
+    "fill without range for .b/.h values or over an empty range, count of 'erase <address>', count/data words of "
+    "key-store commands, 8-byte-group swapping and counter base of encrypted loads (the goldens show the legacy default "
+    "'swap unless noByteSwap = 1', the document says 'byteSwap = true for byte swap'), section ids at command level (SPSDK "
+    "numbers sections by position), padding of a load up to the next 16-byte boundary (C04's sb2-load-count-padded)",
+    "section options ('section (1; name = value)') are documented as 'not supported, raises syntax error' but "
+    "tests/nxpimage/test_bd_compiler.py requires them to parse: observed, not judged",
+    "any exception raised by SPSDK counts as 'refused' (the CLI turns SPSDKError and KeyError into an error message); a "
+    "shard is inconclusive when fewer than 60 % of its generated programs are accepted by the parser",
     "OTFAD encryption itself is C13's subject: C19 only requires that the data is the plain data encrypted under the "
-    "key blob the program selects",
+    "key blob the program selects; character literals occur in ~12 % of the programs only (two on one line are "
+    "mis-tokenised, which would otherwise turn most programs into refusals)",
 ]
 REQUIRED_COUNTERS = ["programs", "config_compared", "commands_compared", "unsupported_tried", "cli_runs",
                      "grammar_actions_executed", "directed"]
@@ -97,9 +106,11 @@ def cases(tier, seed):
         yield {"kind": "unsupported", "k": k, "n": 3 if thorough else 1}
     for k in range(12 if thorough else 4):
         yield {"kind": "cli", "k": k, "n": 8 if thorough else 5}
-    for k in range(40 if thorough else 8):
+    for k in range(30 if thorough else 8):
         yield {"kind": "expr", "k": k, "n": 400 if thorough else 150}
-    n_gen, per = (1000, 100) if thorough else (60, 50)
+    # DESIGN.md asked for ~100 000 programs in the thorough tier; 40 000 keep it inside the 20 minute budget when the
+    # machine is shared (8 ms CPU per program; measured 50 min for 100 000 at load average 330)
+    n_gen, per = (400, 100) if thorough else (60, 50)
     for k in range(n_gen):
         yield {"kind": "gen", "k": k, "n": per}
 
@@ -335,31 +346,67 @@ class ExprGen:
             h = "0" * self.rng.randrange(1, 4) + h
         return ("0X" if self.rng.random() < 0.15 else "0x") + h
 
+    def lit(self, v, text=None):
+        n = Node("lit", text=text if text is not None else self.literal_text(v))
+        n.val = v
+        return n
+
     def char_literal(self):
         n = self.rng.randrange(1, 5)
         s = "".join(self.rng.choice("abcxyzABC019 _-.+") for _ in range(n))
-        return Node("lit", text=f"'{s}'")
+        return self.lit(int.from_bytes(s.encode(), "big"), f"'{s}'")
 
     def leaf(self):
         r = self.rng.random()
         if self.consts and r < 0.3:
-            return Node("ref", text=core.pick(self.rng, sorted(self.consts)))
+            n = Node("ref", text=core.pick(self.rng, sorted(self.consts)))
+            n.val = self.consts[n.text]
+            return n
         if r < 0.34 and self.allow_chars:
             return self.char_literal()
-        return Node("lit", text=self.literal_text(self.literal_value()))
+        return self.lit(self.literal_value())
 
-    # evaluation through the reference ------------------------------------------------------
-    def value(self, node, boolean=False):
-        text = bshow(node, -1, "L", self.paren_unary) if boolean else show(node, -1, "L", self.paren_unary)
-        return bd_ref.evaluate(text, self.consts, boolean=boolean)
+    # The generator's own arithmetic only *steers* generation (it keeps operands inside the domain of the
+    # ASSUMPTIONS); expected values always come from the reference interpreter reading the final text, and
+    # u32() / _as_expr() / run_case cross-check this bookkeeping against it.
+    class Undefined(Exception):
+        pass
+
+    def calc(self, n):
+        k = n.kind
+        kids = n.kids
+        if k in ("lit", "ref"):
+            return n.val
+        if k in ("par", "b_int", "b_par"):
+            return kids[0].val
+        if k == "sz":
+            return kids[0].val & ((1 << {"b": 8, "h": 16, "w": 32}[n.op]) - 1)
+        if k == "un":
+            return -kids[0].val if n.op == "-" else kids[0].val
+        if k == "b_def":
+            return 1 if n.text in self.consts else 0
+        if k == "b_not":
+            return 0 if kids[0].val else 1
+        a, b = kids[0].val, kids[1].val
+        op = n.op
+        if k == "b_bin":
+            return int({"||": bool(a or b), "&&": bool(a and b), "==": a == b, "!=": a != b, "<": a < b, "<=": a <= b,
+                        ">": a > b, ">=": a >= b}[op])
+        if op in ("/", "%"):
+            if a < 0 or b <= 0:
+                raise self.Undefined()
+            return a // b if op == "/" else a % b
+        if op in ("<<", ">>"):
+            if a < 0 or not 0 <= b <= 31:
+                raise self.Undefined()
+            return a << b if op == "<<" else a >> b
+        return {"+": a + b, "-": a - b, "*": a * b, "&": a & b, "|": a | b, "^": a ^ b}[op]
 
     def tree(self, depth):
-        """Arithmetic tree of at most the given depth whose value is defined (retries inside)."""
+        """Arithmetic tree of at most the given depth whose value is defined (repairs operands where it is not)."""
         rng = self.rng
         if depth <= 0 or rng.random() < 0.18:
-            n = self.leaf()
-            n.val = self.value(n)
-            return n
+            return self.leaf()
         r = rng.random()
         if r < 0.10:
             n = Node("un", core.pick(rng, ["-", "-", "+"]), (self.tree(depth - 1),))
@@ -367,49 +414,35 @@ class ExprGen:
             n = Node("par", kids=(self.tree(depth - 1),))
         elif r < 0.24:
             base = self.leaf()
-            if base.text.startswith("'") or base.text.endswith("K") or base.text[0] in "tfyn" and base.kind == "lit":
-                base = Node("lit", text=str(self.literal_value()))
+            if base.kind == "lit" and (not base.text[0].isdigit() or base.text.endswith("K")):
+                base = self.lit(base.val, hex(base.val) if rng.random() < 0.5 else str(base.val))
             n = Node("sz", core.pick(rng, ["b", "h", "w"]), (base,))
         else:
             op = core.pick(rng, _BIN_OPS)
             left = self.tree(depth - 1)
             if op in ("<<", ">>") and rng.random() < 0.85:
-                right = Node("lit", text=self.literal_text(rng.randrange(0, 32) if rng.random() < 0.8 else rng.randrange(0, 8)))
-                right.val = self.value(right)
+                right = self.lit(rng.randrange(0, 32) if rng.random() < 0.8 else rng.randrange(0, 8))
             else:
                 right = self.tree(depth - 1)
             n = Node("bin", op, (left, right))
-        for _ in range(6):
+        for _ in range(4):
             try:
-                n.val = self.value(n)
+                n.val = self.calc(n)
                 return n
-            except (bd_ref.BDOutOfDomain, bd_ref.BDSemanticError):
-                self.stats["expr_retries"] = self.stats.get("expr_retries", 0) + 1
-                if n.kind == "bin":
-                    left, right = n.kids
-                    if n.op in ("/", "%", "<<", ">>") and left.val is not None and left.val < 0:
-                        left = Node("bin", "&", (Node("par", kids=(left,)) if left.kind != "lit" else left,
-                                                 Node("lit", text=core.pick(rng, ["0xFFFF", "0xFFFFFFFF", "255"]))))
-                        left.val = None
-                    if n.op in ("/", "%") and right.val is not None and right.val <= 0:
-                        right = Node("lit", text=self.literal_text(rng.randrange(1, 300)))
-                    elif n.op in ("<<", ">>"):
-                        right = Node("lit", text=str(rng.randrange(0, 32)))
-                    elif rng.random() < 0.5:
-                        n = Node("bin", core.pick(rng, _SAFE_OPS), (left, right))
-                        continue
-                    for kid in (left, right):
-                        if kid.val is None:
-                            try:
-                                kid.val = self.value(kid)
-                            except bd_ref.BDError:
-                                kid = None
-                    n = Node("bin", n.op, (left, right))
-                else:
-                    n = self.leaf()
-        n = Node("lit", text=str(self.literal_value()))
-        n.val = self.value(n)
-        return n
+            except self.Undefined:
+                self.stats["expr_repairs"] = self.stats.get("expr_repairs", 0) + 1
+                left, right = n.kids
+                if left.val < 0:   # / % << >> want a non-negative left operand: mask it
+                    inner = left if left.kind in ("lit", "ref", "par") else Node("par", kids=(left,))
+                    inner.val = left.val
+                    left = Node("bin", "&", (inner, self.lit(core.pick(rng, [0xFFFF, U32, 255]))))
+                    left.val = self.calc(left)
+                if n.op in ("/", "%") and right.val <= 0:
+                    right = self.lit(rng.randrange(1, 300))
+                elif n.op in ("<<", ">>") and not 0 <= right.val <= 31:
+                    right = self.lit(rng.randrange(0, 32))
+                n = Node("bin", n.op, (left, right))
+        raise core.Inconclusive("expression generator could not repair an operand")
 
     def btree(self, depth):
         """Boolean-level tree (operands: arithmetic trees, other boolean nodes, defined())."""
@@ -427,13 +460,8 @@ class ExprGen:
         elif r < 0.40:
             n = Node("b_par", kids=(self.btree(depth - 1),))
         else:
-            op = core.pick(rng, _BOOL_OPS)
-            n = Node(op and "b_bin", op, (self.btree(depth - 1), self.btree(depth - 1)))
-        try:
-            n.val = self.value(n, boolean=True)
-        except (bd_ref.BDOutOfDomain, bd_ref.BDSemanticError):
-            n = Node("b_int", kids=(self.tree(1),))
-            n.val = self.value(n, boolean=True)
+            n = Node("b_bin", core.pick(rng, _BOOL_OPS), (self.btree(depth - 1), self.btree(depth - 1)))
+        n.val = self.calc(n)
         return n
 
     def depth_choice(self):
@@ -462,8 +490,6 @@ class ExprGen:
             if lead == "no-ident" and (text[0].isalpha() or text[0] == "_") and not text.startswith(("true", "false", "yes", "no")):
                 text = "(" + text + ")"
             if lead == "no-open" and text[0] in "(+-":
-                continue
-            if lead == "no-ident" and text[0] == "(" and False:
                 continue
             try:
                 if bd_ref.evaluate(text, self.consts, boolean=False) != v:
@@ -1123,6 +1149,8 @@ def judge_program(ctx, text, extern, *, meta=None, count_programs=True):
         ctx.count("generator_rejected_by_reference")
         ctx.note("generator_rejected_by_reference", {"why": f"{type(ex).__name__}: {ex}", "text": text[:400]})
         return "ref-rejected"
+    if meta.get("consts") is not None and meta["consts"] != prog["constants"]:
+        raise core.Inconclusive("generator bookkeeping differs from the reference interpreter for a constant")
     if count_programs:
         ctx.count("programs")
     sig_base = [sorted(set(meta.get("blocks", []))), sorted(meta.get("kinds", []))]
@@ -1270,10 +1298,19 @@ def unsupported_programs(rng, wd, stats):
         ("load-target-dot", f"section (0) {{ {body()} load src1 > .; }}"),
         ("load-no-target", f"section (0) {{ load src1; {body()} }}"),
         ("section-from-source", "section (0) <= src1;"),
+    ]
+    # observed, not judged: the document says "section_options is not supported and raises syntax error when used",
+    # tests/nxpimage/test_bd_compiler.py::test_section_option_list requires them to parse
+    observed_only = [
         ("section-options", f"section (0; alignment = {e.u32(1)[0]}, cleartext = 1) {{ {body()} }}"),
-        ("section-options-single", f"section (1; cleartext = true) {{ {body(2)} }}"),
+        # valid by the documented grammar; SPSDK's optional memory *name* makes it ambiguous (not generated elsewhere)
+        ("identifier-led operand: erase k1 + 4 .. k1 + 0x100", "section (0) { erase k1 + 4 .. k1 + 0x100; }"),
+        ("identifier-led operand: load k1 > 0x100", "section (0) { load k1 > 0x100; }"),
+        ("program without options block", None),
     ]
     out = [(label, head + text + "\n", extern) for label, text in items]
+    out += [("observed:" + label, (head + text + "\n") if text else "section (0) { erase all; }\n", extern)
+            for label, text in observed_only]
     out.append(("source-attributes", head.replace('"f0.bin";', '"f0.bin" (x = 1, y = "z");') + "section (0) { }\n", extern))
     out.append(("source-attribute", head.replace("extern(0);", "extern(0) (x = 1);") + "section (0) { }\n", extern))
     out.append(("source-attributes-empty", head.replace("extern(0);", "extern(0) ();") + "section (0) { }\n", extern))
@@ -1298,18 +1335,18 @@ DIRECTED = [
     ("string-then-quoted-comment", 'options { flags = 0x8; }\nsources { a = "f0.bin"; // the "boot" image\n }\nsection (0) { load a > 0x100; }\n'),
     ("two-char-literals-one-line", _HEAD + "constants { c = 'a' + 'b'; }\nsection (0) { }\n"),
     ("logical-operands", _HEAD + "constants { p = (3 && 5) == 1; q = 0 || 7; r = 2 && 1; }\nsection (0) { }\n"),
-    ("unary-minus", _HEAD + "constants { x = -(2 - 5) % 4; y = 10 - -(1 - 8) / 2 * 3; }\nsection (0) { }\n"),
+    ("unary-minus", _HEAD + "constants { x = -(2 - 5) % 4; y = 10 - -(1 - 8) / 2; }\nsection (0) { }\n"),
     ("fill-range", _HEAD + "section (0) { load 0x5a5a5a5a > 0x2000..0x3000; }\n"),
     ("blob-4", _HEAD + "section (0) { load {{01 02 03 04}} > 0x100; }\n"),
     ("blob-mem", _HEAD + "section (0) { load @288 {{aa bb cc dd}} > 0x08000188; load sdcard {{aa bb cc dd}} > 0x08000188; }\n"),
     ("blob-8", _HEAD + "section (0) { load {{ ff 2e 90 07 77 5f 1d 20 }} > 0xa0000000; }\n"),
     ("blob-2", _HEAD + "section (0) { load {{aa bb}} > 0x100; }\n"),
-    ("blob-encrypt", _HEAD + 'keyblob (0) { (start = 0x1000, end = 0x13ff, key = "00112233445566778899aabbccddeeff", counter = "0011223344556677") }\n'
+    ("blob-encrypt", _HEAD + 'keyblob (0) { (start = 0x1000, end = 0x13ff, key = "00112233445566778899aabbccddeeff",\n counter = "0011223344556677") }\n'
      "section (0) { encrypt (0) { load {{01 02 03 04}} > 0x1000; } }\n"),
     ("fuse-blob-leading-zero", _HEAD + "section (0) { load fuse {{00 00 00 00 11 22 33 44}} > 0x01000188; }\n"),
     ("fuse-blob-8", _HEAD + "section (0) { load fuse {{88 99 aa bb cc dd ee ff}} > 0x01000188; load ifr {{aa bb cc dd}} > 0x20; load @4 0xaabb > 0x24; }\n"),
-    ("keyblob-order", _HEAD + 'keyblob (3) { (start = 0x1000, end = 0x13ff, key = "000102030405060708090a0b0c0d0e0f", counter = "0011223344556677") }\n'
-     'keyblob (0) { (start = 0x2000, end = 0x23ff, key = "101112131415161718191a1b1c1d1e1f", counter = "8899aabbccddeeff") }\n'
+    ("keyblob-order", _HEAD + 'keyblob (3) { (start = 0x1000, end = 0x13ff, key = "000102030405060708090a0b0c0d0e0f",\n counter = "0011223344556677") }\n'
+     'keyblob (0) { (start = 0x2000, end = 0x23ff, key = "101112131415161718191a1b1c1d1e1f",\n counter = "8899aabbccddeeff") }\n'
      "sources { s = \"f0.bin\"; }\n"
      "section (7) { encrypt (0) { load s > 0x2000; } keywrap (3) { load {{000102030405060708090a0b0c0d0e0f}} > 0x40; } keywrap (0) { load {{ffeeddccbbaa99887766554433221100}} > 0x80; } }\n"),
     ("statements", _HEAD + "constants { a = 0x100; }\nsection (1) { erase all; erase unsecure all; erase @8 all; erase sdcard 0x1000..0x2000; enable @9 a; "
@@ -1433,7 +1470,7 @@ def run_case(case, ctx):  # noqa: C901
         for _ in range(case["n"]):
             g = ProgGen(rng, wd, stats)
             text = g.program()
-            judge_program(ctx, text, g.extern, meta={"blocks": g.blocks, "kinds": g.kinds})
+            judge_program(ctx, text, g.extern, meta={"blocks": g.blocks, "kinds": g.kinds, "consts": g.consts})
         for k, v in stats.items():
             ctx.count(k, v)
         return
@@ -1470,6 +1507,18 @@ def run_case(case, ctx):  # noqa: C901
     if kind == "unsupported":
         for _ in range(case["n"]):
             for label, text, extern in unsupported_programs(rng, wd, stats):
+                if label.startswith("observed:"):
+                    stage = "parse"
+                    try:
+                        cfg, _ = spsdk_parse(text, extern)
+                        stage = "build"
+                        spsdk_build(cfg, e)
+                        ctx.note("observed_not_judged", f"{label[9:]}: accepted; parser output {core.jsonable(cfg.get('sections'))}"[:400])
+                    except Exception as ex:  # pylint: disable=broad-except
+                        if core.origin_of(ex) != "repo" and not core.is_refusal(ex):
+                            raise
+                        ctx.note("observed_not_judged", f"{label[9:]}: refused at {stage} ({type(ex).__name__})")
+                    continue
                 ctx.count("unsupported_tried")
                 try:
                     bd_ref.parse(text, extern)
@@ -1495,7 +1544,7 @@ def run_case(case, ctx):  # noqa: C901
                     if not core.is_refusal(ex):
                         ctx.note("non_spsdk_exception_types", f"unsupported/{label}: {type(ex).__name__}")
                     continue
-                ctx.violation("bd-unsupported-construct-accepted:" + label.split("-")[0] + ("-options" if "options" in label else ""),
+                ctx.violation("bd-unsupported-construct-accepted:" + label.split("-")[0],
                               {"construct": label, "program": text, "stage_completed": stage})
         return
 
